@@ -35,7 +35,8 @@ def plan(tier):
                           useful_only=True, sync=True, next_power={2: [2, 1, 1, 1]}), n, d + 90))
     # the locking discipline is what Agreement rests on: the directed lock / unlock / relock / stale-polka schedules
     # (tm_scenarios.py; they reach situations the bounded exhaustive configuration and short simulations rarely reach)
-    p.scenarios = ['lock_unlock', 'relock_and_pol_proposal', 'locked_without_proposal', 'stale_polka_must_not_unlock']
+    p.scenarios = ['lock_unlock', 'relock_and_pol_proposal', 'locked_without_proposal', 'stale_polka_must_not_unlock',
+                   'lock_survives_restart']
     return p
 
 
